@@ -351,6 +351,68 @@ def run(prog: Program) -> Results:
             if not ok:
                 res.add("R-C10-5", ("scopes_for_owner", "attrset scope base", alpha(c, sfo.node)[:50]), sfo.loc(c),
                         f"`{norm(c)[:60]}` is not based on the accumulated chain tuple(scopes)")
+    # inherit continuations: `inherit x;` looks x up outside the holder, `inherit (src) x;` looks src up in the holder's own chain
+    rib = closures.get("_resolve_inherited_binding")
+    if rib is None:
+        res.unclass("_resolve_identifier._resolve_inherited_binding vanished")
+    elif len(rib.params()) >= 3:
+        from sa.cfg import CFG as _CFG, edges_establishing as _ee
+        chain_p, outer_p = rib.params()[1], rib.params()[2]
+        rcfg = _CFG(rib.node)
+        fe = next((norm(d.targets[0]) for d in walk_no_nested(rib.node) if isinstance(d, ast.Assign) and isinstance(d.targets[0], ast.Name)
+                   and ((isinstance(d.value, ast.Call) and callee(d.value) == "getattr" and len(d.value.args) > 1
+                         and isinstance(d.value.args[1], ast.Constant) and d.value.args[1].value == "from_expression")
+                        or (isinstance(d.value, ast.Attribute) and d.value.attr == "from_expression"))), None)
+        if fe is None:
+            res.unclass("_resolve_inherited_binding: the read of `from_expression` was not recognised")
+        plain = _ee(rcfg, lambda a, t: fe is not None and ((norm(a) == f"{fe} is None" and t is True) or (norm(a) == f"{fe} is not None" and t is False)))
+        for n in rcfg.nodes:
+            if n.ast is None or n.kind not in ("stmt", "return", "test"):
+                continue
+            for c in ast.walk(n.ast):
+                if not isinstance(c, ast.Call):
+                    continue
+                nm = callee(c)
+                if nm == "set_resolution_context" and len(c.args) >= 2 and fe is not None and norm(c.args[0]) == fe:
+                    r5.instances += 1
+                    ok = norm(c.args[1]) == chain_p
+                    r5.ob(ok, {"site": rib.key, "inherit_source_context": norm(c)[:70]})
+                    if not ok:
+                        res.add("R-C10-5", (rib.key, "inherit source resolved in the wrong chain"), rib.loc(c),
+                                f"{rib.key}: `{norm(c)[:70]}` resolves the source of `inherit (src) …;` in `{norm(c.args[1])}` instead of "
+                                f"`{chain_p}` (the chain up to and including the rec set / let layer that holds the inherit): a `src` bound "
+                                f"in that very layer is skipped and an outer binding of the same name wins")
+                elif nm == "_resolve_identifier" and len(c.args) >= 2:
+                    r5.instances += 1
+                    in_plain = bool(plain) and rcfg.all_paths_pass(n, cut_edges=plain)
+                    a1 = c.args[1]
+                    if in_plain:
+                        ok = norm(a1) == outer_p
+                        want = outer_p
+                    else:
+                        ds = [d for d in ast.walk(rib.node) if isinstance(d, ast.Assign) and norm(d.targets[0]) == norm(a1)]
+                        ok = bool(ds) and all(norm(d.value).startswith(f"tuple(list({chain_p}) + [") for d in ds)
+                        want = f"tuple(list({chain_p}) + [<source scope>])"
+                    r5.ob(ok, {"site": rib.key, "continuation": norm(c)[:60], "plain_inherit": in_plain})
+                    if not ok:
+                        res.add("R-C10-5", (rib.key, "inherit continues with the wrong chain", "plain" if in_plain else "from"), rib.loc(c),
+                                f"{rib.key}: `{norm(c)[:60]}` continues with `{norm(a1)}`; required `{want}`")
+    # the environment name of `with env; …` is looked up in the fullest chain available (inherited + the let layers on the with itself)
+    for c in ast.walk(sfo.node):
+        if isinstance(c, ast.Call) and callee(c) == "set_resolution_context" and len(c.args) >= 2 and "environment" in norm(c.args[0]):
+            r5.instances += 1
+            a1 = c.args[1]
+            ds = [d for d in ast.walk(sfo.node) if isinstance(d, ast.Assign) and norm(d.targets[0]) == norm(a1)] if isinstance(a1, ast.Name) else []
+            v = ds[0].value if len(ds) == 1 else a1
+            first = v.body if isinstance(v, ast.IfExp) else (v.values[0] if isinstance(v, ast.BoolOp) and isinstance(v.op, ast.Or) else v)
+            cond_ok = not isinstance(v, ast.IfExp) or norm(v.test) in (acc, f"len({acc}) > 0", f"bool({acc})")
+            ok = norm(first) in (f"tuple({acc})", acc) and cond_ok
+            r5.ob(ok, {"with_environment_context": norm(v)[:70]})
+            if not ok:
+                res.add("R-C10-5", ("scopes_for_owner", "with environment resolved in a shorter chain"), sfo.loc(c),
+                        f"scopes_for_owner: the `with` environment name is resolved in `{norm(v)[:70]}`, whose first choice is not the "
+                        f"accumulated chain `tuple({acc})`: let layers wrapped directly around the `with` are skipped, so an outer "
+                        f"binding of the same name supplies the environment")
     gi = prog.func("AttributeSet.__getitem__")
     r5.instances += 1
     ctx = [d for d in ast.walk(gi.node) if isinstance(d, ast.Assign) and "scopes_for_owner(self)" in norm(d.value)]
